@@ -265,7 +265,12 @@ def r15_2(ctx: Ctx, rep: Report) -> None:  # noqa: C901
     rep.instance()
     st = [n for n in own_nodes(g.node) if isinstance(n, ast.Assign) and any(isinstance(t, ast.Attribute) and src(t.value) == "self" and t.attr == "_items" for t in n.targets)]
     if st:
-        rep.ok(f"Acl.group: {snippet(st[-1])}", "groups replace the flat list", where=where(g, st[-1]))
+        # ... as it was built: in the order the buckets were opened (the order of the headings in the text)
+        state, why = order_of(ctx, g, st[-1].value)
+        if state in ("sorted", "reversed", "unordered"):
+            rep.violation("Acl.group", snippet(st[-1]), f"the blocks are stored {state} ({why}), not in the order their headings stand in the text: unnumbered blocks all compare by their heading text, so item order is no longer line order", where(g, st[-1]), inp="Acl('ip access-list extended A\n remark === WEB\n permit tcp any any eq 80\n remark === DNS\n permit udp any any eq 53', group_by='=== ').items  ->  DNS block first")
+        else:
+            rep.ok(f"Acl.group: {snippet(st[-1])}", "groups replace the flat list", where=where(g, st[-1]))
     else:
         rep.violation("Acl.group", "self._items = ...", "the grouped list is never stored", where(g))
     adoption_rule(ctx, rep)
@@ -566,6 +571,9 @@ def items_setter_store(ctx: Ctx, rep: Report, rid: str = "R15.8") -> None:
         f = ctx.prog.find_func(q)
         if f is None or len(f.params) < 2:
             continue
+        from .normalise import normalised as _nrm
+
+        f = _nrm(ctx, f, "gencalls")  # `self._items = list(self._iter_items(items))`: the generator's loop is read in place
         n += 1
         rep.instance()
         param = f.params[1]
